@@ -95,7 +95,19 @@ class C04(Prop):
             "state, operator and bra bonds all differ in general); `nodes` = 8-9 (thorough up to 10) nodes with bonds 1-3; `degree` = a node (root or below it) with 3-6 children whose bonds are a random "
             "arrangement of distinct values, bra bonds equal or different. Probed on each: scalar_product(bra) both ways, contract_two_ttns and expectation_value called directly, norm(), "
             "scalar_product() with / without the centre flag, TTNO expectation value (also for the bra as state and after canonical_form at a random centre), tensor products on 0-3 sites, the "
-            "centre shortcuts after canonical_form, TTNO.as_matrix(); reference = dense einsum (optimised contraction path) of the current tensors, tolerance 1e-9 relative to the natural scale")
+            "centre shortcuts after canonical_form, TTNO.as_matrix(); reference = dense einsum (optimised contraction path) of the current tensors, tolerance 1e-9 relative to the natural scale; "
+            "[str7-C04] `grown` = networks PRODUCED BY other public operations (oracle only, 1-7 nodes, shapes random / chain / star / hub): ket, bra and TTNO are each built from a random START node "
+            "(add_root with a spare open leg), the subtrees by add_child_to_parent and every node on the path to the final root by add_parent_to_root, in a random interleaving with shuffled legs, "
+            "with read-only queries on the live object in between (bond_dim / neighbour_dim / neighbour_index of one edge in either direction, of every bond of one / all nodes, max_bond_dim, "
+            "completely_contract_tree(to_copy=True) of the unfinished network; outcome not judged) and calls the library rejects (bond_dim of a non-neighbour, add_child_to_parent with an existing "
+            "identifier / a mismatching dimension / an unknown parent, add_parent_to_root with a mismatching dimension / an existing identifier): the rejected call must raise and leave root, parents, "
+            "children and shapes as they were, the construction continues; then on the LIVE objects: scalar products both ways, with use_orthogonal_center=False, contract_two_ttns, conjugate-linearity, "
+            "the state passed to itself and a deepcopy of it, norm(), scalar_product(), TTNO / tensor-product (0-3 sites) expectation values for ket and bra, expectation_value directly, as_matrix(); "
+            "the same on a deepcopy / pickle round trip / conjugate().conjugate() of ket and operator, and on the ket after canonical_form (incl. the single-site shortcut); tolerance 1e-9 relative; "
+            "`pairs` = pairs of RELATED states (oracle only, 1-7 nodes, live objects, no copies taken by the harness): the bra is the ket itself / a deepcopy or pickle round trip / a copy with one node "
+            "times 1 + eps e^{i t} (assignment or replace_tensor) / a copy after exp(-i eps G) through apply_operator / a copy with every entry changed relatively by eps (eps = 10^U(-9,-3)), or an "
+            "independent state with the SAME construction (child orders, shapes) at ordinary scale or with both networks' entries ~10^-12..10^-8.5 per node; with probability 0.35 both canonical at the same "
+            "centre (edits then at the centre); the scalar-product probes above against np.vdot of the dense vectors, tolerance 1e-10 |psi||phi|")
     clauses = [
         ("F", "for all trees and independent child orders of ket / bra / operator (wf_two / wf_three): contract_two_ttns and expectation_value succeed and return the closed "
               "network: no open axis, atoms = all atoms, every edge wire bound, glued pairs exactly (ket leg n, bra leg n) resp. (ket leg n, operator input n) and "
@@ -160,6 +172,12 @@ class C04(Prop):
               "bonds unequal in every direction, 8-10 nodes, nodes with 3-6 children of pairwise different bonds): dense oracle; no model tie (the closed-network theorems "
               "C04_contract_two_ttns_closed / C04_expectation_value_closed hold for every tree and all dimensions; the case files would only re-evaluate them on bigger literals)"),
         # [/str6-C04]
+        # [str7-C04]
+        ("V", "provenance independence: the same equalities for networks grown through add_parent_to_root / add_child_to_parent from an arbitrary start node with read-only queries and "
+              "rejected calls (which must leave the network unchanged) between the steps, for their deepcopy / pickle / conjugate-twice images, and for pairs of related states (the state "
+              "itself, copies, copies differing by eps = 1e-9..1e-3, same-structure independent states incl. tiny amplitudes): dense oracle; no model tie (the closed-network theorems are "
+              "stated for every wf store, however it was built; the Store model has no add_parent_to_root operation)"),
+        # [/str7-C04]
     ]
     trusted_base = ["NumPy tensordot/transpose/reshape implement the diagram operations (validated exactly on integer tensors)",
                     "kernel contract of the semantic bridge (qr_contracts / iso_atom, premises of the O theorems): the Q factor of every recorded QR call is an isometry "
@@ -193,6 +211,15 @@ class C04(Prop):
             nn = {"bonds": rng.choice([3, 4, 4, 5, 5, 6, 7]), "nodes": rng.choice(ctx.scale([8, 8, 9], [8, 9, 9, 10])), "degree": rng.choice([4, 5, 6, 7])}[sub]
             cases.append({"seed": rng.randrange(10 ** 9), "nnodes": nn, "kind": "big", "sub": sub, "ints": False, "share": False})
         # [/str6-C04]
+        # [str7-C04] networks grown through add_parent_to_root with queries / rejected calls in between, and pairs of related states
+        # (oracle only; drawn AFTER everything above, which therefore stays what it was)
+        ng = ctx.scale(36, 400) * budget_scale
+        cases += [{"seed": rng.randrange(10 ** 9), "nnodes": rng.choice([1, 2, 3, 3, 4, 4, 5, 5, 6, 7]), "kind": "grown", "ints": False, "share": False} for j in range(ng)]
+        npair = ctx.scale(40, 480) * budget_scale
+        pk = ["phase", "rot", "perturb", "tiny", "copy", "phase", "same", "self", "rot", "tiny"]
+        cases += [{"seed": rng.randrange(10 ** 9), "nnodes": rng.choice([1, 2, 2, 3, 3, 4, 4, 5, 6, 7]), "kind": "pairs", "sub": pk[j % len(pk)],
+                   "ints": False, "share": False} for j in range(npair)]
+        # [/str7-C04]
         return cases
 
     def nontrivial(self, case):
@@ -206,6 +233,8 @@ class C04(Prop):
                 c[f"scale:{x.get('sub')}"] += 1
             if x["kind"] == "big":
                 c[f"big:{x.get('sub')}"] += 1
+            if x["kind"] == "pairs":
+                c[f"pairs:{x.get('sub')}"] += 1
             c[f"nodes={x['nnodes']}"] += 1
         return dict(c)
 
@@ -224,6 +253,8 @@ class C04(Prop):
         n = case["nnodes"]
         if case["kind"] == "big":      # [str6-C04]
             return self._run_big(case, rng)
+        if case["kind"] == "grown":    # [str7-C04]
+            return self._run_grown(case, rng)
         parents = [None] + [rng.randrange(0, i) for i in range(1, n)]
         phys = [rng.choice([1, 2, 2, 3]) for _ in range(n)]
         bond = {i: rng.choice([1, 2, 2, 3]) for i in range(1, n)}
@@ -255,6 +286,8 @@ class C04(Prop):
             op, _ = self._build(rng, parents, [[d, d] for d in phys], bond3, TTNO, False, case["seed"] + 2)
             return self._run_scale(case, rng, ket.ttn, bra.ttn, op.ttn, ids, dims)
         # [/str5-C04]
+        if kind == "pairs":            # [str7-C04]
+            return self._run_pairs(case, rng, ket.ttn, kops, ids, dims)
         psi = util.dense_vec(copy.deepcopy(ket.ttn), ids)
         ob = {"kind": kind, "kops": kops, "katoms": ket.atoms}
         if kind == "two":
@@ -869,6 +902,372 @@ class C04(Prop):
         return {"kind": "big", "info": info, "probes": probes}
     # [/str6-C04] ----------------------------------------------------------------------------------
 
+    # [str7-C04] -----------------------------------------------------------------------------------
+    # Networks PRODUCED BY other public operations of the library, and pairs of RELATED states.
+    # `grown`: the property text quantifies over "any two states on the same tree" / "any state and any operator": how the
+    # network object came to be is not restricted to add_root + add_child_to_parent.  Here ket, bra and TTNO are each built
+    # from a random START node upward and downward at once: add_root(start, with a spare open leg towards its future parent),
+    # add_child_to_parent for the subtrees, add_parent_to_root for every node on the path to the final root, in a random
+    # interleaving, with READ-ONLY queries on the live object between the steps (bond_dim / neighbour_dim / neighbour_index of
+    # random or all edges, max_bond_dim, an attempted contraction of the unfinished network) and calls the library REJECTS
+    # (bond_dim of a non-neighbour, a child with an existing identifier / a mismatching dimension / an unknown parent, a new
+    # root of mismatching dimension): a rejected call must leave the network as it was and the construction continues.
+    # `pairs`: the bra is not an unrelated random state but DERIVED from the ket (the same object, a deepcopy / pickle round
+    # trip, a copy times 1 + eps z at one node, a copy after a rotation exp(-i eps G) through apply_operator, a copy with
+    # every entry perturbed relatively by eps, eps = 10^U(-9,-3)), or an independent state with the SAME child orders and
+    # shapes (ordinary scale, or both with entries ~10^-9..10^-12), optionally both in canonical form at the same centre.
+    RTOL_PAIR = 1e-10
+
+    def _grow(self, rng, nprs, cls, parents, open_dims, bond, trace, who, problems):
+        from pytreenet.core.node import Node
+        n = len(parents)
+        names = [f"n{i}" for i in range(n)]
+        children = {i: [j for j in range(1, n) if parents[j] == i] for i in range(n)}
+        start = 0 if rng.random() < 0.2 else rng.randrange(n)
+        ttn = cls()
+        cur = {}
+
+        def fresh(i):
+            legs = ([("u", bond[i])] if parents[i] is not None else []) + [("c", j, bond[j]) for j in children[i]]
+            legs += [("o", k, d) for k, d in enumerate(open_dims[i])]
+            rng.shuffle(legs)
+            opos = [k for k, l in enumerate(legs) if l[0] == "o"]
+            for k, l in zip(opos, sorted((legs[k] for k in opos), key=lambda l_: l_[1])):
+                legs[k] = l
+            return legs
+
+        def rand(legs, bump=None):
+            shape = [l[-1] for l in legs]
+            if bump is not None:
+                shape[bump] += 1
+            return self._crand(nprs, tuple(shape), False)
+
+        def pos(legs, tag, j=None):
+            return [k for k, l in enumerate(legs) if l[0] == tag and (j is None or l[1] == j)][0]
+
+        def snap():
+            return (ttn.root_id, {k: (nd.parent, list(nd.children), tuple(nd.shape)) for k, nd in ttn.nodes.items()})
+
+        def addable():
+            return [(p, j) for p in sorted(cur) for j in children[p] if j not in cur]
+
+        def inspect():
+            how = rng.choice(["edge", "edge", "edge", "node", "all", "max", "contract"])
+            present = sorted(cur)
+            try:
+                if how == "edge":
+                    cand = [(a, b) for a in present for b in present if parents[b] == a]
+                    cand = cand + [(b, a) for a, b in cand]
+                    if not cand:
+                        return
+                    a, b = rng.choice(cand)
+                    f = rng.choice(["bond_dim", "neighbour_dim", "neighbour_index"])
+                    trace.append([who, "inspect", f, names[a], names[b]])
+                    if f == "bond_dim":
+                        ttn.bond_dim(names[a], names[b])
+                    else:
+                        getattr(ttn.nodes[names[a]], f)(names[b])
+                elif how in ("node", "all"):
+                    which = [rng.choice(present)] if how == "node" else present
+                    trace.append([who, "inspect", "bond_dim of every bond of", [names[a] for a in which]])
+                    for a in which:
+                        nd = ttn.nodes[names[a]]
+                        for b in ([nd.parent] if nd.parent is not None else []) + list(nd.children):
+                            ttn.bond_dim(names[a], b)
+                elif how == "max":
+                    trace.append([who, "inspect", "max_bond_dim"])
+                    ttn.max_bond_dim()
+                else:
+                    # an attempted contraction of the unfinished network (extra open legs: the library may decline)
+                    trace.append([who, "inspect", "completely_contract_tree(to_copy=True)"])
+                    ttn.completely_contract_tree(to_copy=True)
+            except Exception as e:  # noqa   (a read-only query; its outcome is not what this property judges)
+                trace[-1].append(f"-> {type(e).__name__}")
+
+        def bad():
+            present = sorted(cur)
+            add = addable()
+            menu = ["bond_dim", "bond_dim"] + (["dup", "dim", "noparent"] if add else []) + (["parentdim", "parentdup"] if parents[root[0]] is not None else [])
+            how = rng.choice(menu)
+            before = snap()
+            try:
+                if how == "bond_dim":
+                    a = rng.choice(present)
+                    others = [names[j] for j in present if j != a and parents[j] != a and parents[a] != j]
+                    b = rng.choice(others + ["nowhere"])
+                    call = ["bond_dim", names[a], b]
+                    ttn.bond_dim(names[a], b)
+                elif how in ("dup", "dim", "noparent"):
+                    p, j = rng.choice(add)
+                    cl = fresh(j)
+                    cleg, pleg = pos(cl, "u"), pos(cur[p], "c", j)
+                    nid = names[rng.choice(present)] if how == "dup" else names[j]
+                    pid = "nowhere" if how == "noparent" else names[p]
+                    call = ["add_child_to_parent", how, nid, pid]
+                    ttn.add_child_to_parent(Node(identifier=nid), rand(cl, cleg if how == "dim" else None), cleg, pid, pleg)
+                else:
+                    r, q = root[0], parents[root[0]]
+                    ql = fresh(q)
+                    qleg, rleg = pos(ql, "c", r), pos(cur[r], "u")
+                    nid = names[rng.choice(present)] if how == "parentdup" else names[q]
+                    t = rand(ql, qleg if how == "parentdim" else None)
+                    call = ["add_parent_to_root", how, nid]
+                    ttn.add_parent_to_root(rleg, Node(tensor=t, identifier=nid), t, qleg)
+            except Exception as e:  # noqa
+                trace.append([who, "rejected"] + call + [type(e).__name__])
+                if snap() != before:
+                    problems.append(f"{who}: the rejected call {call} ({type(e).__name__}) changed the network: {before} -> {snap()}")
+                return True
+            trace.append([who, "ACCEPTED"] + call)
+            problems.append(f"{who}: the call {call}, which has no valid meaning on this network, was accepted")
+            return False
+
+        legs = fresh(start)
+        ttn.add_root(Node(identifier=names[start]), rand(legs))
+        cur[start] = legs
+        root = [start]
+        trace.append([who, "add_root", names[start], [l[-1] for l in legs]])
+        extras = 0
+        while True:
+            add = addable()
+            canpar = parents[root[0]] is not None
+            if not add and not canpar:
+                break
+            menu = ["child"] * (3 if add else 0) + ["parent"] * (2 if canpar else 0)
+            if extras < 2 * n + 2:
+                menu += ["inspect", "inspect", "bad"]
+            what = rng.choice(menu)
+            if what == "inspect":
+                extras += 1
+                inspect()
+            elif what == "bad":
+                extras += 1
+                if not bad():
+                    return ttn, False
+            elif what == "child":
+                p, j = rng.choice(add)
+                cl = fresh(j)
+                cleg, pl = pos(cl, "u"), cur[p]
+                pleg = pos(pl, "c", j)
+                trace.append([who, "add_child_to_parent", names[j], [l[-1] for l in cl], cleg, names[p], pleg])
+                ttn.add_child_to_parent(Node(identifier=names[j]), rand(cl), cleg, names[p], pleg)
+                x = pl.pop(pleg)
+                pl.insert(sum(1 for l in pl if l[0] in ("P", "C")), ("C", j, x[-1]))
+                x = cl.pop(cleg)
+                cl.insert(0, ("P", x[-1]))
+                cur[j] = cl
+            else:
+                r, q = root[0], parents[root[0]]
+                ql, rl = fresh(q), cur[r]
+                qleg, rleg = pos(ql, "c", r), pos(rl, "u")
+                t = rand(ql)
+                trace.append([who, "add_parent_to_root", rleg, names[q], [l[-1] for l in ql], qleg])
+                ttn.add_parent_to_root(rleg, Node(tensor=t, identifier=names[q]), t if rng.random() < 0.5 else t.copy(), qleg)
+                x = rl.pop(rleg)
+                rl.insert(0, ("P", x[-1]))
+                x = ql.pop(qleg)
+                ql.insert(0, ("C", r, x[-1]))
+                cur[q] = ql
+                root[0] = q
+        return ttn, True
+
+    def _probe_pairwise(self, ket, bra, ids, probes, tag, rtol, rng):
+        """scalar products of two LIVE state objects (no copies: the argument may be the state itself) against the dense vectors"""
+        from pytreenet.contractions.state_state_contraction import contract_two_ttns
+        psi = self._dense_net(ket, ids).reshape(-1)
+        phi = self._dense_net(bra, ids).reshape(-1)
+        npsi, nphi = float(np.linalg.norm(psi)), float(np.linalg.norm(phi))
+        if not all(np.isfinite(v) and v > 0 for v in (npsi, nphi)):
+            raise RuntimeError(f"harness: degenerate reference norms {npsi} {nphi}")
+
+        def rec(q, fun, ref, scale):
+            try:
+                val = complex(fun())
+            except Exception as e:  # noqa
+                probes.append({"q": tag + q, "error": f"{type(e).__name__}: {e}"})
+                return
+            probes.append({"q": tag + q, "value": val, "dense": complex(ref), "scale": float(scale), "rtol": rtol})
+        ip = np.vdot(phi, psi)
+        rec("ket.scalar_product(bra)", lambda: ket.scalar_product(bra), ip, npsi * nphi)
+        rec("bra.scalar_product(ket)", lambda: bra.scalar_product(ket), np.conj(ip), npsi * nphi)
+        rec("ket.scalar_product(bra, use_orthogonal_center=False)", lambda: ket.scalar_product(bra, use_orthogonal_center=False), ip, npsi * nphi)
+        rec("contract_two_ttns(ket, bra.conjugate())", lambda: contract_two_ttns(ket, bra.conjugate()), ip, npsi * nphi)
+        z = complex(rng.choice([2 + 1j, 1j, -1.0, 10.0 ** rng.uniform(-3, 3) * np.exp(1j * rng.uniform(0, 2 * np.pi))]))
+        kk = rng.choice(ids)
+        b2 = copy.deepcopy(bra)
+        b2.tensors[kk] = b2.tensors[kk] * z
+        rec(f"ket.scalar_product(copy of bra with node {kk} times {z})", lambda: ket.scalar_product(b2), np.conj(z) * ip, abs(z) * npsi * nphi)
+        rec("ket.scalar_product(ket)", lambda: ket.scalar_product(ket), npsi ** 2, npsi ** 2)
+        rec("ket.scalar_product(deepcopy(ket))", lambda: ket.scalar_product(copy.deepcopy(ket)), npsi ** 2, npsi ** 2)
+        rec("bra.scalar_product(bra)", lambda: bra.scalar_product(bra), nphi ** 2, nphi ** 2)
+        return psi, phi, npsi, nphi
+
+    def _probe_single(self, st, vec, nv, op, O, nO, ids, dims, rng, nprs, probes, tag, rtol):
+        """norm, <psi|psi>, TTNO and tensor-product expectation values of one LIVE state object"""
+        from pytreenet.contractions.state_operator_contraction import expectation_value
+
+        def rec(q, fun, ref, scale):
+            try:
+                val = complex(fun())
+            except Exception as e:  # noqa
+                probes.append({"q": tag + q, "error": f"{type(e).__name__}: {e}"})
+                return
+            probes.append({"q": tag + q, "value": val, "dense": complex(ref), "scale": float(scale), "rtol": rtol})
+        rec("norm()", lambda: st.norm(), nv, nv)
+        rec("scalar_product()", lambda: st.scalar_product(), nv ** 2, nv ** 2)
+        rec("scalar_product(use_orthogonal_center=False)", lambda: st.scalar_product(use_orthogonal_center=False), nv ** 2, nv ** 2)
+        if op is not None:
+            ev = np.vdot(vec, O @ vec)
+            rec("operator_expectation_value(TTNO)", lambda: st.operator_expectation_value(op), ev, nv ** 2 * nO)
+            rec("expectation_value(state, TTNO)", lambda: expectation_value(st, op), ev, nv ** 2 * nO)
+        sites = rng.sample(ids, rng.randrange(0, min(3, len(ids)) + 1))
+        mats = {s_: nprs.standard_normal((dims[s_],) * 2) + 1j * nprs.standard_normal((dims[s_],) * 2) for s_ in sites}
+        tps = nv ** 2 * float(np.prod([np.linalg.norm(m_, 2) for m_ in mats.values()])) if mats else nv ** 2
+        rec(f"operator_expectation_value(TensorProduct on {sites})", lambda: st.operator_expectation_value(TensorProduct(dict(mats))),
+            np.vdot(vec, util.dense_tp(mats, ids, dims) @ vec), tps)
+
+    def _probe_matrix(self, op, probes, tag, rtol):
+        try:
+            m, order = op.as_matrix()
+            ref = self._dense_op(op, order)
+            top = float(np.max(np.abs(ref)))
+            dev = float(np.max(np.abs(m - ref))) if m.shape == ref.shape else float("inf")
+            probes.append({"q": tag + f"TTNO.as_matrix() (max entrywise deviation; order {order})", "value": complex(dev), "dense": 0j, "scale": top, "rtol": rtol})
+            if list(order) != self._preorder(op):
+                probes.append({"q": tag + "TTNO.as_matrix()", "error": f"contraction order {order} is not the pre-order {self._preorder(op)}"})
+        except Exception as e:  # noqa
+            probes.append({"q": tag + "TTNO.as_matrix()", "error": f"{type(e).__name__}: {e}"})
+
+    def _run_grown(self, case, rng):
+        import pickle
+        n = case["nnodes"]
+        nprs = np.random.RandomState((case["seed"] + 19) % (2 ** 31))
+        shape = rng.choice(["random", "random", "random", "chain", "star", "hub"])
+        if shape == "chain":
+            parents = [None] + list(range(n - 1))
+        elif shape == "star":
+            parents = [None] + [0] * (n - 1)
+        elif shape == "hub" and n >= 4:
+            parents = [None, 0] + [rng.choice([1, 1, rng.randrange(0, i)]) for i in range(2, n)]
+        else:
+            parents = [None] + [rng.randrange(0, i) for i in range(1, n)]
+        phys = [rng.choice([1, 2, 2, 3]) for _ in range(n)]
+        kb = {i: rng.choice([1, 2, 2, 3, 4]) for i in range(1, n)}
+        bb = {i: rng.choice([1, 2, 3]) for i in range(1, n)}
+        ob_ = {i: rng.choice([1, 2, 2, 3]) for i in range(1, n)}
+        ids = [f"n{i}" for i in range(n)]
+        dims = {f"n{i}": phys[i] for i in range(n)}
+        trace, problems, probes = [], [], []
+        out = {"kind": "grown", "info": {"parents": parents, "phys": phys}, "trace": trace, "problems": problems, "probes": probes}
+        ket, ok1 = self._grow(rng, nprs, TTNS, parents, [[d] for d in phys], kb, trace, "ket", problems)
+        bra, ok2 = self._grow(rng, nprs, TTNS, parents, [[d] for d in phys], bb, trace, "bra", problems)
+        op, ok3 = self._grow(rng, nprs, TTNO, parents, [[d, d] for d in phys], ob_, trace, "op", problems)
+        if not (ok1 and ok2 and ok3):
+            return out
+        rtol = self.RTOL
+        O = self._dense_op(op, ids)
+        nO = float(np.linalg.norm(O, 2))
+        psi, phi, npsi, nphi = self._probe_pairwise(ket, bra, ids, probes, "", rtol, rng)
+        self._probe_single(ket, psi, npsi, op, O, nO, ids, dims, rng, nprs, probes, "ket: ", rtol)
+        self._probe_single(bra, phi, nphi, op, O, nO, ids, dims, rng, nprs, probes, "bra: ", rtol)
+        self._probe_matrix(op, probes, "", rtol)
+        # objects produced from the grown ones by a copy / a pickle round trip / conjugate().conjugate()
+        how = rng.choice(["deepcopy", "pickle", "conjugate twice"])
+        dup = {"deepcopy": copy.deepcopy, "pickle": lambda x: pickle.loads(pickle.dumps(x)), "conjugate twice": lambda x: x.conjugate().conjugate()}[how]
+        try:
+            k2, o2 = dup(ket), dup(op)
+        except Exception as e:  # noqa
+            probes.append({"q": how, "error": f"{type(e).__name__}: {e}"})
+            return out
+        self._probe_single(k2, psi, npsi, o2, O, nO, ids, dims, rng, nprs, probes, f"{how} of ket / op: ", rtol)
+        self._probe_matrix(o2, probes, f"{how}: ", rtol)
+        # ... and the grown ket itself in a canonical gauge (centre shortcuts)
+        centre = rng.choice(ids)
+        mode = rng.choice(["reduced", "reduced", "full"])
+        try:
+            ket.canonical_form(centre, mode=wmodel.MODES[mode])
+        except Exception as e:  # noqa
+            probes.append({"q": f"canonical_form({centre}, {mode})", "error": f"{type(e).__name__}: {e}"})
+            return out
+        tag = f"ket after canonical_form({centre}, {mode}): "
+        self._probe_single(ket, psi, npsi, op, O, nO, ids, dims, rng, nprs, probes, tag, rtol)
+        a = nprs.standard_normal((dims[centre],) * 2) + 1j * nprs.standard_normal((dims[centre],) * 2)
+        try:
+            val = complex(ket.single_site_operator_expectation_value(centre, a))
+            probes.append({"q": tag + f"single_site_operator_expectation_value({centre})", "value": val,
+                           "dense": complex(np.vdot(psi, util.dense_tp({centre: a}, ids, dims) @ psi)), "scale": npsi ** 2 * float(np.linalg.norm(a, 2)), "rtol": rtol})
+        except Exception as e:  # noqa
+            probes.append({"q": tag + "single_site_operator_expectation_value", "error": f"{type(e).__name__}: {e}"})
+        return out
+
+    def _run_pairs(self, case, rng, ket, kops, ids, dims):
+        import pickle
+        from scipy.linalg import expm
+        nprs = np.random.RandomState((case["seed"] + 23) % (2 ** 31))
+        sub = case["sub"]
+        n = len(ids)
+        info = {"sub": sub}
+        probes = []
+        out = {"kind": "pairs", "info": info, "probes": probes}
+
+        def second():
+            drv = Driver(ttn_cls=TTNS, nprs=np.random.RandomState((case["seed"] + 29) % (2 ** 31)))
+            for o in kops:
+                ok, err = drv.apply(o)
+                if not ok:
+                    raise RuntimeError(f"build failed: {o}: {err}")
+            return drv.ttn
+        centre = None
+        if sub in ("tiny", "same"):
+            bra = second()
+            if sub == "tiny":
+                fk, fb = 10.0 ** rng.uniform(-12, -8.5), 10.0 ** rng.uniform(-12, -8.5)
+                info.update({"ket_factor_per_node": fk, "bra_factor_per_node": fb})
+                for k in ids:
+                    ket.tensors[k] = ket.tensors[k] * fk
+                    bra.tensors[k] = bra.tensors[k] * fb
+        if rng.random() < 0.35:
+            centre = rng.choice(ids)
+            mode = rng.choice(["reduced", "reduced", "full"])
+            info["canonical_form"] = [centre, mode]
+            ket.canonical_form(centre, mode=wmodel.MODES[mode])
+            if sub in ("tiny", "same"):
+                bra.canonical_form(centre, mode=wmodel.MODES[mode])
+                if any(bra.tensors[k].shape != ket.tensors[k].shape for k in ids):
+                    info["note"] = "shapes differ after canonical_form"
+        if sub not in ("tiny", "same"):
+            eps = 10.0 ** rng.uniform(-9, -3)
+            info["eps"] = eps
+            x = centre if centre is not None else rng.choice(ids)       # edits at the recorded centre keep the gauge
+            if sub == "self":
+                bra = ket
+            elif sub == "copy":
+                how = rng.choice(["deepcopy", "pickle"])
+                info["how"] = how
+                bra = copy.deepcopy(ket) if how == "deepcopy" else pickle.loads(pickle.dumps(ket))
+            else:
+                bra = copy.deepcopy(ket)
+                info["node"] = x
+                if sub == "phase":
+                    z = 1 + eps * np.exp(1j * rng.uniform(0, 2 * np.pi))
+                    info["factor"] = complex(z)
+                    if rng.random() < 0.5:
+                        bra.tensors[x] = bra.tensors[x] * z
+                    else:
+                        bra.replace_tensor(x, bra.tensors[x] * z)
+                elif sub == "rot":
+                    g = nprs.standard_normal((dims[x],) * 2) + 1j * nprs.standard_normal((dims[x],) * 2)
+                    g = g + g.conj().T
+                    g /= max(float(np.linalg.norm(g, 2)), 1e-300)
+                    bra.apply_operator(TensorProduct({x: expm(-1j * eps * g)}))
+                else:   # perturb: every entry (of one node if a centre is recorded, else of every node) changed relatively by eps
+                    for k in ([x] if centre is not None else ids):
+                        t = bra.tensors[k]
+                        bra.tensors[k] = t * (1 + eps * (nprs.standard_normal(t.shape) + 1j * nprs.standard_normal(t.shape)))
+        self._probe_pairwise(ket, bra, ids, probes, "", self.RTOL_PAIR, rng)
+        return out
+    # [/str7-C04] ----------------------------------------------------------------------------------
+
     @staticmethod
     def _preorder(ttn):
         out = []
@@ -1149,6 +1548,20 @@ class C04(Prop):
                             f"(deviation {dev:.3e} > {pr['rtol']:g} * natural scale {pr['scale']:.3e})")
             return None
         # [/str6-C04]
+        # [str7-C04]
+        if k in ("grown", "pairs"):
+            what = (f"network grown by {ob['trace']}" if k == "grown" else f"related pair {ob['info']}")
+            for msg in ob.get("problems", []):
+                return f"{what}: {msg}"
+            for pr in ob["probes"]:
+                if "error" in pr:
+                    return f"{what}: {pr['q']} raised {pr['error']}"
+                dev = abs(pr["value"] - pr["dense"])
+                if not (dev <= pr["rtol"] * pr["scale"]):
+                    return (f"{what}: {pr['q']} = {pr['value']} != dense {pr['dense']} "
+                            f"(deviation {dev:.3e} > {pr['rtol']:g} * natural scale {pr['scale']:.3e})")
+            return None
+        # [/str7-C04]
         if k == "norm":
             if "norm_error" in ob:
                 return f"norm() raised {ob['norm_error']}"
